@@ -1,18 +1,150 @@
 /-
-C11 — Mann–Whitney U statistics and p-values are exact for small samples. Property theorems.
-Helper lemmas live in Proofs/Lemmas/C11*.lean.
--/
-import Model.Stats.UDist
-import Model.Stats.UStat
-import Model.Spec.UExact
-import Proofs.Lemmas.C11Basic
+C11 — Mann–Whitney U statistics and p-values are exact for small samples.
 
-namespace C11
+Property statements only; the proofs are in Proofs/Lemmas/C11*.lean.
+
+Objects:
+* model  — `Stats.UStat` (utest.go: sort, labeledMerge, rank loop, U1/U2, branch selection, p formulas),
+           `Stats.UDist` (udist.go: recurrence `pRec` of `UDist.p`, counting recurrence `A` of
+           `makeUmemo` with its K = 2 base case `base2`, wrappers `cdfPure`/`pmfPure`);
+* spec   — `Spec.UExact` (`twoUPairs` = pair counting, `splits` = all assignments of the pooled
+           values, `nullDistOf`, `pLess`/`pGreater`/`pTwoSided` by counting), and the per-group
+           count `C11.groupCount` (Proofs/Lemmas/C11Groups).
+-/
+import Proofs.Lemmas.C11Basic
+import Proofs.Lemmas.C11Rank
+import Proofs.Lemmas.C11Untied
+import Proofs.Lemmas.C11Tied
+import Proofs.Lemmas.C11PFormulas
+import Proofs.Lemmas.C11Errors
+import Proofs.Lemmas.C11Misc
+
+namespace C11.Props
 open Stats Stats.UStat Stats.UDist
 
-/-! ### errors -/
+/-! ### the statistic -/
 
-/-- an empty sample is reported as the size error, whatever the rest -/
+/-- **u_is_pair_count.** For all samples over any linear order, the doubled rank-sum statistic
+    2·R1 − n1(n1+1) computed by the sort/merge/rank loop equals 2·#{(a,b) ∈ x1×x2 : a > b} + #{a = b}. -/
+theorem u_is_pair_count {α : Type} [LinearOrder α] (x1 x2 : List α) :
+    twoU1 x1 x2 = ((Spec.UExact.twoUPairs x1 x2 : Nat) : Int) :=
+  C11.u_is_pair_count x1 x2
+
+/-- the tie vector T handed to `UDist` is the run-length vector of the pooled sorted sample -/
+theorem tie_vector_is_run_lengths {α : Type} [LinearOrder α] (x1 x2 : List α) :
+    tieVector x1 x2 = Spec.UExact.tieVectorOf ((sortF (x1 ++ x2)).dedup) (x1 ++ x2) :=
+  C11.tie_vector_is_run_lengths x1 x2
+
+/-- `hasTies` is set exactly when some tie group has more than one member -/
+theorem has_ties_iff {α : Type} [LinearOrder α] (L : List (α × Bool)) :
+    (ranks L).hasTies = true ↔ ∃ t ∈ (ranks L).T, t > 1 :=
+  C11.ranks_hasTies_iff L
+
+/-! ### the untied distribution -/
+
+/-- **untied_recurrence_exact.** `p_{n,m}(u)·C(n+m,n)` is the number of assignments of a pool of
+    n+m distinct values (listed in descending order) to a first sample of size n whose doubled
+    statistic is 2u. -/
+theorem untied_recurrence_exact {α : Type} [LinearOrder α] (n m : Nat) (pool : List α)
+    (hlen : pool.length = n + m) (hdesc : pool.Pairwise (· > ·)) (u : Nat) :
+    pRec n m (u : Int) * (Nat.choose (n + m) n : Rat)
+      = (((Spec.UExact.nullDistOf n pool).filter (· = 2 * u)).length : Rat) :=
+  C11.untied_recurrence_exact n m pool hlen hdesc u
+
+example : pRec 2 1 (1 : Nat) * (Nat.choose (2 + 1) 2 : Rat)
+    = (((Spec.UExact.nullDistOf 2 [(3 : Nat), 2, 1]).filter (· = 2 * 1)).length : Rat) :=
+  untied_recurrence_exact 2 1 [3, 2, 1] rfl (by decide) 1
+
+/-- the number of assignments is C(N, n1) -/
+theorem assignments_count {α : Type} (n : Nat) (pool : List α) :
+    (Spec.UExact.splits n pool).length = Nat.choose pool.length n :=
+  C11.splits_length n pool
+
+/-- **pmf_sums_to_one** (untied) -/
+theorem pmf_sums_to_one_untied (n m : Nat) :
+    ∑ u ∈ Finset.range (n * m + 1), pRec n m (u : Int) = 1 :=
+  C11.pmf_sums_to_one_untied n m
+
+/-- **dist_swap_symmetry** (untied): symmetric about n·m/2 and under swapping the sample sizes -/
+theorem dist_swap_symmetry_untied (n m u : Nat) :
+    pRec n m (u : Int) = pRec n m (((n * m : Nat) : Int) - (u : Int)) ∧ pRec n m (u : Int) = pRec m n (u : Int) :=
+  C11.untied_dist_symmetric n m u
+
+/-- **cdf_is_prefix_sum** (untied wrapper, including the `flip` shortcut of `UDist.CDF`) -/
+theorem cdf_is_prefix_sum_untied (n1 n2 : Nat) (T : List Nat) (hT : UDist.hasTies T = false) (twoU : Int)
+    (h0 : 0 ≤ twoU) (h1 : twoU < 2 * ((n1 * n2 : Nat) : Int)) :
+    cdfPure n1 n2 T twoU = ∑ v ∈ Finset.range ((twoU / 2).toNat + 1), pRec n1 n2 (v : Int) :=
+  C11.cdfPure_untied_pRec n1 n2 T hT twoU h0 h1
+
+/-! ### the tied distribution -/
+
+/-- **k2_closed_form.** The K = 2 base case with its `num ≥ 0` guard and Go's truncating division
+    sums C(t0, n1−r2)·C(t1, r2) over exactly the r2 ∈ [0, n1] whose doubled statistic
+    n1(t0−n1) + r2(t0+t1) is ≤ twoU. -/
+theorem k2_closed_form (t0 t1 n1 : Nat) (hpos : 0 < t0 + t1) (twoU : Int) :
+    base2 [t0, t1] (n1 : Int) twoU
+      = ∑ r2 ∈ Finset.range (n1 + 1),
+          if (n1 : Int) * ((t0 : Int) - n1) + (r2 : Int) * ((t0 : Int) + t1) ≤ twoU
+          then Nat.choose t0 (n1 - r2) * Nat.choose t1 r2 else 0 :=
+  C11.k2_closed_form t0 t1 n1 hpos twoU
+
+/-- the base case before commit f31837d was wrong (witness of finding F5) -/
+theorem k2_old_code_wrong : C11.base2Old [3, 1] 2 0 = 3 ∧ base2 [3, 1] 2 0 = 0 :=
+  C11.k2_old_code_wrong
+
+/-- **klotz_step.** One level of the recurrence lowers (n1, 2U) by the members taken from the top
+    rank and by the pairs they win or tie: r·(a[k] − 2·n1 + r) = 2·r·(S − (n1−r)) + r·(t[k−1] − r). -/
+theorem klotz_step (t : List Nat) (k : Nat) (n1 twoU r : Int) :
+    (subKey t (k + 1) n1 twoU r).1 = n1 - r ∧
+    (subKey t (k + 1) n1 twoU r).2
+      = twoU - (2 * r * ((sumTo t k : Int) - (n1 - r)) + r * (((t.getD k 0 : Nat) : Int) - r)) :=
+  C11.klotz_step t k n1 twoU r
+
+/-- **cdf_is_prefix_sum** (tied wrappers): CDF(U) = A(−1)/C + Σ_{v ≤ 2U} PMF(v/2) -/
+theorem cdf_is_prefix_sum_tied (n1 n2 : Nat) (T : List Nat) (hT : UDist.hasTies T = true) (u : Nat)
+    (hu : u < 2 * (n1 * n2)) :
+    cdfPure n1 n2 T (u : Int)
+      = ((A T T.length n1 (-1) : Nat) : Rat) / ((choose (n1 + n2) n1 : Nat) : Rat)
+        + ∑ v ∈ Finset.range (u + 1), pmfPure n1 n2 T (v : Int) :=
+  C11.cdf_is_prefix_sum_tied n1 n2 T hT u hu
+
+/-- **pmf_sums_to_one** (tied), given exactness of the table at its two ends -/
+theorem pmf_sums_to_one_tied_partial (n1 n2 : Nat) (T : List Nat) (hT : UDist.hasTies T = true)
+    (hlo : A T T.length n1 (-1) = 0)
+    (hhi : A T T.length n1 ((2 * (n1 * n2) : Nat) : Int) = choose (n1 + n2) n1)
+    (hC : choose (n1 + n2) n1 ≠ 0) :
+    ∑ v ∈ Finset.range (2 * (n1 * n2) + 1), pmfPure n1 n2 T (v : Int) = 1 :=
+  C11.pmf_sums_to_one_tied_partial n1 n2 T hT hlo hhi hC
+
+example : ∑ v ∈ Finset.range (2 * (2 * 1) + 1), pmfPure 2 1 [1, 2] (v : Int) = 1 :=
+  pmf_sums_to_one_tied_partial 2 1 [1, 2] (by decide) (by decide +kernel) (by decide +kernel) (by decide +kernel)
+
+/-! ### p-values -/
+
+/-- **less_spec.** Given the exact distribution function, the one-sided *less* p-value is P(2U ≤ 2u). -/
+theorem less_spec (cdf : Int → Rat) (dist : List Nat) (h : IsCDFOf cdf dist) (u : Nat) (tu2 : Int) :
+    exactP cdf .less (u : Int) tu2 = Spec.UExact.pLess dist u :=
+  C11.less_spec cdf dist h u tu2
+
+/-- **greater_spec.** … and *greater* (which steps back by one half step, 079b4ab) is P(2U ≥ 2u). -/
+theorem greater_spec (cdf : Int → Rat) (dist : List Nat) (h : IsCDFOf cdf dist) (hne : dist ≠ [])
+    (u : Nat) (tu2 : Int) :
+    exactP cdf .greater (u : Int) tu2 = Spec.UExact.pGreater dist u :=
+  C11.greater_spec cdf dist h hne u tu2
+
+/-- **two_sided_asymmetric_witness** (finding N5): for x1 = {1,2}, x2 = {2} the code's two-sided value
+    is 4/3, swapped 2/3; the specification demands 1 both ways. Hence `two_sided_spec` is false for
+    the code as it stands. -/
+theorem two_sided_asymmetric_witness :
+    C11.Outcome.p? (mannWhitney cdfPure 50 25 [(1 : Int), 2] [2] .differs) = some ((4 : Rat) / 3) ∧
+    C11.Outcome.p? (mannWhitney cdfPure 50 25 [(2 : Int)] [1, 2] .differs) = some ((2 : Rat) / 3) ∧
+    Spec.UExact.pTwoSided (Spec.UExact.nullDist [(1 : Int), 2] [2]) (Spec.UExact.twoUPairs [(1 : Int), 2] [2]) = 1 ∧
+    Spec.UExact.pTwoSided (Spec.UExact.nullDist [(2 : Int)] [1, 2]) (Spec.UExact.twoUPairs [(2 : Int)] [1, 2]) = 1 :=
+  C11.two_sided_asymmetric_witness
+
+/-! ### errors and the normal approximation -/
+
+/-- **errors_spec** (empty): an empty sample is the size error -/
 theorem errors_spec_empty {α : Type} [LT α] [DecidableLT α] [DecidableEq α]
     (cdf : Nat → Nat → List Nat → Int → Rat) (lim limT : Nat) (x1 x2 : List α) (alt : Alt)
     (h : x1 = [] ∨ x2 = []) :
@@ -20,4 +152,27 @@ theorem errors_spec_empty {α : Type} [LT α] [DecidableLT α] [DecidableEq α]
   unfold mannWhitney
   rcases h with h | h <;> simp [h]
 
-end C11
+/-- **errors_spec** (one tie group): all values equal is the all-equal error on either branch -/
+theorem errors_spec_all_equal {α : Type} [LT α] [DecidableLT α] [DecidableEq α]
+    (cdf : Nat → Nat → List Nat → Int → Rat) (lim limT : Nat) (alt : Alt)
+    (v : α) (hirr : ¬ v < v) (x1 x2 : List α) (h1 : x1 ≠ []) (h2 : x2 ≠ [])
+    (e1 : ∀ a ∈ x1, a = v) (e2 : ∀ b ∈ x2, b = v) :
+    mannWhitney cdf lim limT x1 x2 alt = .error .samplesEqual :=
+  C11.errors_spec_all_equal cdf lim limT alt v hirr x1 x2 h1 h2 e1 e2
+
+example : mannWhitney cdfPure 50 25 [(7 : Int), 7] [7] .less = .error .samplesEqual :=
+  errors_spec_all_equal _ _ _ _ 7 (by decide) _ _ (by simp) (by simp) (by simp) (by simp)
+
+/-- **approx_formula.** μ, tie-corrected σ² and the continuity-corrected numerator of the model are
+    the textbook ones, as exact rationals. -/
+theorem approx_formula (twoU n1 n2 : Nat) (T : List Nat) :
+    sigma2 n1 n2 T = Spec.UExact.sigma2 n1 n2 ((T.map fun t => t * t * t - t).sum) ∧
+    twoNumer .less (twoU : Int) n1 n2 = Spec.UExact.twoNumerLess twoU n1 n2 ∧
+    twoNumer .greater (twoU : Int) n1 n2 = Spec.UExact.twoNumerGreater twoU n1 n2 ∧
+    twoNumer .differs (twoU : Int) n1 n2 = Spec.UExact.twoNumerTwoSided twoU n1 n2 :=
+  C11.approx_formula twoU n1 n2 T
+
+/-- the model's binomial (Go `mathChoose` on its exact range) is the binomial coefficient -/
+theorem choose_is_binomial (n k : Nat) : choose n k = Nat.choose n k := C11.choose_eq n k
+
+end C11.Props
